@@ -76,7 +76,7 @@ let () =
         Hashtbl.reset ext_born; n_inserted := 0;
         let ops = List.concat_map parse_ops (List.filter (fun s -> s <> "") (split ' ' ops)) in
         (* the arity-0 tuple impls are separate hand-written impls: their behaviour is the slice algorithm at n = 0 *)
-        let tuple = (cont = "tuple" && n > 0) in
+        let tuple = ((cont = "tuple" || cont = "ext") && n > 0) in
         keyed := (comb = "fgroup_keyed" || comb = "sgroup_keyed"); Hashtbl.reset first_seen;
         let tr = match comb with
           | "join" -> run_join selective false tuple scripts ops
